@@ -20,6 +20,7 @@ pub struct Failure {
     pub case: Case,
     pub violation: Violation,
     pub shard: usize,
+    pub reuse_addresses: bool,
 }
 
 #[derive(Default)]
@@ -176,7 +177,7 @@ fn run_shard(plan: &Plan, shard: usize, cases: u32, seed: u64, salt: u64, prefix
             let r = driver::run_case(&case, plan.opts);
             let v = first_relevant(plan.prop, &r).or_else(|| last_violation.borrow().clone());
             if let Some(v) = v {
-                o.failure = Some(Failure { case, violation: v, shard });
+                o.failure = Some(Failure { case, violation: v, shard, reuse_addresses: plan.opts.reuse_addresses });
             }
         }
     }
@@ -200,7 +201,7 @@ pub fn run_fixed(plan: &Plan, cases: &[(String, Case)], into: &mut CampaignResul
         }
         if into.failure.is_none() {
             if let Some(v) = first_relevant(plan.prop, &r) {
-                into.failure = Some(Failure { case: case.clone(), violation: v, shard: usize::MAX });
+                into.failure = Some(Failure { case: case.clone(), violation: v, shard: usize::MAX, reuse_addresses: plan.opts.reuse_addresses });
             }
         }
     }
